@@ -206,9 +206,14 @@ func positionFunctions(r *vh.Run) {
 								if cnt > 0 {
 									i = r.Rand.Intn(cnt)
 								}
+								impl := posFn(name, i, cnt, pages, nup)
+								if impl == "panic" {
+									// index out of range off the intended domain: 0 in the model by the translator's convention
+									r.Count("class:pos-offdomain-panic")
+									continue
+								}
 								r.Case("pos", []string{name, vh.Int(int64(i)), vh.Int(int64(cnt)), vh.Ints(pages), vh.Int(int64(nup.N())),
-									vh.Int(int64(nup.BookletType)), vh.Bool(nup.PageDim.Landscape()), vh.Bool(nup.IsTopFoldBinding())},
-									posFn(name, i, cnt, pages, nup))
+									vh.Int(int64(nup.BookletType)), vh.Bool(nup.PageDim.Landscape()), vh.Bool(nup.IsTopFoldBinding())}, impl)
 							}
 						}
 					}
@@ -221,26 +226,56 @@ func positionFunctions(r *vh.Run) {
 // ---- K + O: getBookletOrdering for every count x configuration x folio size
 
 func bookletOrderings(r *vh.Run) {
+	type triple struct {
+		bt model.BookletType
+		bd model.BookletBinding
+		d  types.Dim
+	}
+	var all []triple
+	for bt := model.Booklet; bt <= model.BookletPerfectBound; bt++ {
+		for _, bd := range []model.BookletBinding{model.LongEdge, model.ShortEdge} {
+			for _, d := range dims {
+				all = append(all, triple{bt, bd, d})
+			}
+		}
+	}
+	some := func(m int) []triple {
+		if m >= len(all) {
+			return all
+		}
+		out := make([]triple, m)
+		for i, j := range r.Rand.Perm(len(all))[:m] {
+			out[i] = all[j]
+		}
+		return out
+	}
+	// every count x N x folio size (0 = multi-folio off); type x binding x page orientation exhaustively
+	// for the small counts, a seeded sample of them for the larger ones (the model is slow: ~60us per slot)
 	maxK := r.Pick(60, 200)
+	exhaustiveUpTo := r.Pick(20, 60)
+	perFolio := r.Pick(1, 2)
 	for k := 1; k <= maxK; k++ {
 		for _, n := range []int{2, 4, 6, 8} {
-			for gi, g := range grids[n] {
-				if gi > 0 && (k+n)%3 != 0 {
-					continue // the second grid shape of the same N only changes nothing the ordering reads; sample it
+			for folio := 0; folio <= 12; folio++ {
+				var ts []triple
+				switch {
+				case folio == 0 && k <= exhaustiveUpTo:
+					ts = all
+				case folio == 0:
+					ts = some(6)
+				default:
+					ts = some(perFolio)
 				}
-				for bt := model.Booklet; bt <= model.BookletPerfectBound; bt++ {
-					for _, bd := range []model.BookletBinding{model.LongEdge, model.ShortEdge} {
-						for _, d := range dims {
-							for folio := 0; folio <= 12; folio++ {
-								c := cfg{n: n, cols: g[0], rows: g[1], btype: bt, binding: bd, dim: d, multifolio: folio > 0, folio: folio}
-								if folio == 0 {
-									c.folio = 8
-								}
-								pages := selPages(r, k, (k+folio+int(bt))%3)
-								oneOrdering(r, c, pages)
-							}
-						}
+				for ti, t := range ts {
+					g := grids[n][0]
+					if len(grids[n]) > 1 && (k+ti+folio)%5 == 0 {
+						g = grids[n][1] // the other grid shape with the same N
 					}
+					c := cfg{n: n, cols: g[0], rows: g[1], btype: t.bt, binding: t.bd, dim: t.d, multifolio: folio > 0, folio: folio}
+					if folio == 0 {
+						c.folio = 8
+					}
+					oneOrdering(r, c, selPages(r, k, (k+folio+ti)%3))
 				}
 			}
 		}
